@@ -1175,6 +1175,20 @@ def rope_eq(a, b):
         cb.pop()
     if not ca and not cb:
         return True
+    # chunks that are empty on this path (a symbolic slice whose length the path condition fixes at 0) do not take part
+    cx = _CTX[0]
+    if cx is not None and (len(ca) > 1 or len(cb) > 1):
+        def nonempty(chs):
+            out = []
+            for ch in chs:
+                ln = ch.length()
+                if const_of(ln) is None and cx.is_true(ln == 0):
+                    continue
+                out.append(ch)
+            return out
+        ca2, cb2 = nonempty(ca), nonempty(cb)
+        if len(ca2) != len(ca) or len(cb2) != len(cb):
+            return rope_eq(Rope(a.kind, ca2), Rope(a.kind, cb2))
     ra, rb = Rope(a.kind, ca), Rope(a.kind, cb)
     la, lb = rope_len_term(ra), rope_len_term(rb)
     na, nb = const_of(la), const_of(lb)
